@@ -113,7 +113,7 @@ func specKeepsU(nw, old []uint64) bool {
 
 
 def fast_path():
-    out = [is_funcs(ALLINT + ["[]" + t for t in ALLINT] + ["string", "[]string"])]
+    out = [is_funcs(ALLINT + ["[]" + t for t in ALLINT] + ["string", "[]string", "float32", "float64", "[]float32", "[]float64"])]
     out.append("""
 //@ func intScalarFastPath
 //@ requires byteSize == 1 || byteSize == 2 || byteSize == 4 || byteSize == 8
@@ -135,6 +135,7 @@ def int_slow():
 //@ requires item != nil && minVal <= 0 && 0 <= maxVal
 //@ modifies item.values
 //@ ensures [keeps] specKeepsI(item.values, old(item.values))
+//@ ensures [alias] fresh(item.values) || zzSameSlice(item.values[:0], old(item.values)[:0])
 """]
     lo = "len(old(item.values))"
     for t in ["int8", "int16", "int32"] + UNSIGNED_SMALL:
@@ -150,5 +151,206 @@ def int_slow():
     return "".join(out)
 
 
+CTOR = r'''
+// --- constructors hand out items that satisfy the representation invariants the encoders rely on ---
+
+//@ func (*baseItem).setError
+//@ inline
+
+//@ func (*baseItem).setErrorMsg
+//@ requires b != nil
+//@ modifies b.itemErr
+//@ ensures [set] b.itemErr != nil
+
+//@ func (*IntItem).combineIntValues
+//@ requires item != nil && (item.byteSize == 1 || item.byteSize == 2 || item.byteSize == 4 || item.byteSize == 8)
+//@ modifies item.values
+//@ trusts  [lt2g]  len(item.values) < 1<<31
+//@ loop 1 invariant [fresh] fresh(item.values)
+
+//@ func NewIntItem
+//@ ensures [type]    result != nil && specIsIntItem(result) && result.(*IntItem) != nil && fresh(result)
+//@ ensures [inv]     invIntItem(result.(*IntItem))
+//@ ensures [badsize] byteSize != 1 && byteSize != 2 && byteSize != 4 && byteSize != 8 ==> result.(*IntItem).itemErr != nil
+
+func specIsIntItem(it Item) bool { _, ok := it.(*IntItem); return ok }
+'''
+
+
+def uint_slow():
+    lo = "len(old(item.values))"
+    out = ["""
+//@ func (*UintItem).combineUintValuesSlow
+//@ paths split
+//@ requires item != nil
+//@ modifies item.values
+//@ ensures [keeps] specKeepsU(item.values, old(item.values))
+//@ ensures [alias] fresh(item.values) || zzSameSlice(item.values[:0], old(item.values)[:0])
+"""]
+    for t in UNSIGNED_SMALL:
+        out.append("//@ ensures [%s] specIs_%s(value) ==> result == nil && len(item.values) == %s+1 && item.values[%s] == specSatU(uint64(value.(%s)), maxVal)\n" % (t, t, lo, lo, t))
+        out.append("//@ ensures [%ss] specIs_S_%s(value) ==> result == nil && len(item.values) == %s+len(value.([]%s)) &&\n//@     forall k :: 0 <= k && k < len(value.([]%s)) ==> item.values[%s+k] == specSatU(uint64(value.([]%s)[k]), maxVal)\n" % (t, t, lo, t, t, lo, t))
+    for t in SIGNED:
+        out.append("//@ ensures [%s] specIs_%s(value) ==> (result != nil) == (value.(%s) < 0)\n" % (t, t, t))
+        out.append("//@ ensures [%sv] specIs_%s(value) && value.(%s) >= 0 ==> len(item.values) == %s+1 && item.values[%s] == specSatU(uint64(value.(%s)), maxVal)\n" % (t, t, t, lo, lo, t))
+        out.append("//@ ensures [%ss] specIs_S_%s(value) && result == nil ==> len(item.values) == %s+len(value.([]%s)) &&\n//@     forall k :: 0 <= k && k < len(value.([]%s)) ==> value.([]%s)[k] >= 0 && item.values[%s+k] == specSatU(uint64(value.([]%s)[k]), maxVal)\n" % (t, t, lo, t, t, t, lo, t))
+    out.append("//@ ensures [range] forall j :: len(old(item.values)) <= j && j < len(item.values) ==> item.values[j] <= maxVal\n")
+    return "".join(out)
+
+
+def float_slow():
+    lo = "len(old(item.values))"
+    out = ["""
+//@ func clampF4
+//@ inline
+//@ ensures [nan]   v != v ==> result != result
+//@ ensures [above] v > 3.4028234663852886e+38 ==> (result == 3.4028234663852886e+38 || v > 1.7976931348623157e+308)
+//@ ensures [below] v < -3.4028234663852886e+38 ==> (result == -3.4028234663852886e+38 || v < -1.7976931348623157e+308)
+//@ ensures [id]    v >= -3.4028234663852886e+38 && v <= 3.4028234663852886e+38 ==> result == v
+
+func specKeepsF(nw, old []float64) bool {
+	return len(nw) >= len(old) && zzForall(func(j int) bool { return zzImp(0 <= j && j < len(old), math.Float64bits(nw[j]) == math.Float64bits(old[j])) })
+}
+
+//@ func (*FloatItem).combineFloatValuesSlow
+//@ paths split
+//@ requires item != nil
+//@ modifies item.values
+//@ ensures [keeps] specKeepsF(item.values, old(item.values))
+//@ ensures [alias] fresh(item.values) || zzSameSlice(item.values[:0], old(item.values)[:0])
+"""]
+    for t in ["int8", "int16", "int32"] + UNSIGNED_SMALL:
+        out.append("//@ ensures [%s] specIs_%s(value) ==> result == nil && len(item.values) == %s+1 && math.Float64bits(item.values[%s]) == math.Float64bits(float64(value.(%s)))\n" % (t, t, lo, lo, t))
+        out.append("//@ ensures [%ss] specIs_S_%s(value) ==> result == nil && len(item.values) == %s+len(value.([]%s)) &&\n//@     forall k :: 0 <= k && k < len(value.([]%s)) ==> math.Float64bits(item.values[%s+k]) == math.Float64bits(float64(value.([]%s)[k]))\n" % (t, t, lo, t, t, lo, t))
+    for t in ["int", "int64"]:
+        out.append("//@ ensures [%s] specIs_%s(value) ==> (result != nil) == (int64(value.(%s)) > 1<<53 || int64(value.(%s)) < -(1<<53))\n" % (t, t, t, t))
+        out.append("//@ ensures [%sv] specIs_%s(value) && result == nil ==> len(item.values) == %s+1 && math.Float64bits(item.values[%s]) == math.Float64bits(float64(value.(%s)))\n" % (t, t, lo, lo, t))
+    for t in ["uint", "uint64"]:
+        out.append("//@ ensures [%s] specIs_%s(value) ==> (result != nil) == (uint64(value.(%s)) > 1<<53)\n" % (t, t, t))
+        out.append("//@ ensures [%sv] specIs_%s(value) && result == nil ==> len(item.values) == %s+1 && math.Float64bits(item.values[%s]) == math.Float64bits(float64(value.(%s)))\n" % (t, t, lo, lo, t))
+    return "".join(out)
+
+
+CTOR2 = r'''
+//@ func (*UintItem).combineUintValues
+//@ requires item != nil && (item.byteSize == 1 || item.byteSize == 2 || item.byteSize == 4 || item.byteSize == 8)
+//@ modifies item.values
+//@ trusts  [lt2g]  len(item.values) < 1<<31
+//@ loop 1 invariant [fresh] fresh(item.values)
+
+//@ func NewUintItem
+//@ ensures [type]    result != nil && specIsUintItem(result) && result.(*UintItem) != nil && fresh(result)
+//@ ensures [inv]     invUintItem(result.(*UintItem))
+//@ ensures [badsize] byteSize != 1 && byteSize != 2 && byteSize != 4 && byteSize != 8 ==> result.(*UintItem).itemErr != nil
+
+func specIsUintItem(it Item) bool { _, ok := it.(*UintItem); return ok }
+
+//@ func (*FloatItem).combineFloatValues
+//@ requires item != nil && (item.byteSize == 4 || item.byteSize == 8)
+//@ modifies item.values
+//@ trusts  [lt2g]  len(item.values) < 1<<31
+//@ loop 1 invariant [fresh] fresh(item.values)
+
+//@ func NewFloatItem
+//@ ensures [type]    result != nil && specIsFloatItem(result) && result.(*FloatItem) != nil && fresh(result)
+//@ ensures [inv]     invFloatItem(result.(*FloatItem))
+//@ ensures [badsize] byteSize != 4 && byteSize != 8 ==> result.(*FloatItem).itemErr != nil
+
+func specIsFloatItem(it Item) bool { _, ok := it.(*FloatItem); return ok }
+
+//@ func (*BooleanItem).combineBoolValues
+//@ requires item != nil
+//@ modifies item.values
+//@ trusts  [lt2g]  len(item.values) < 1<<31
+//@ loop 1 invariant [fresh] fresh(item.values)
+
+//@ func NewBooleanItem
+//@ ensures [type] result != nil && specIsBooleanItem(result) && result.(*BooleanItem) != nil && fresh(result)
+//@ ensures [inv]  invBooleanItem(result.(*BooleanItem))
+
+func specIsBooleanItem(it Item) bool { _, ok := it.(*BooleanItem); return ok }
+
+//@ func (*BinaryItem).combineBinaryValues
+//@ requires item != nil
+//@ modifies item.values
+//@ loop 1 invariant [fresh] fresh(item.values)
+
+//@ func NewBinaryItem
+//@ ensures [type] result != nil && specIsBinaryItem(result) && result.(*BinaryItem) != nil && fresh(result)
+//@ ensures [inv]  invBinaryItem(result.(*BinaryItem))
+
+func specIsBinaryItem(it Item) bool { _, ok := it.(*BinaryItem); return ok }
+
+//@ func NewASCIIItem
+//@ ensures [inv] result != nil && specIsASCIIItem(result) && invASCIIItem(result.(*ASCIIItem)) && fresh(result)
+//@ ensures [val] len(value) <= MaxByteSize ==> result.(*ASCIIItem).itemErr == nil && result.(*ASCIIItem).value == value
+//@ ensures [err] len(value) > MaxByteSize ==> result.(*ASCIIItem).itemErr != nil
+
+func specIsASCIIItem(it Item) bool { _, ok := it.(*ASCIIItem); return ok }
+
+//@ func NewLocalizedStrItem
+//@ ensures [inv] result != nil && specIsLocalizedStrItem(result) && invLocalizedStrItem(result.(*LocalizedStrItem)) && fresh(result)
+//@ ensures [val] len(value)+2 <= MaxByteSize ==> result.(*LocalizedStrItem).itemErr == nil && result.(*LocalizedStrItem).value == value && result.(*LocalizedStrItem).lsh == lsh
+//@ ensures [err] len(value)+2 > MaxByteSize ==> result.(*LocalizedStrItem).itemErr != nil
+
+func specIsLocalizedStrItem(it Item) bool { _, ok := it.(*LocalizedStrItem); return ok }
+'''
+
+
+LIST = r'''
+// --- lists: the cached "clean" flag is sound (one level; children carry their own invariant by construction) ---
+
+func specIsListItem(it Item) bool  { _, ok := it.(*ListItem); return ok }
+func specIsJIS8Item(it Item) bool  { _, ok := it.(*JIS8Item); return ok }
+func specIsEmptyItem(it Item) bool { _, ok := it.(*EmptyItem); return ok }
+
+// specOwnErrNil: v is a non-nil built-in item whose own deferred error is nil (and, for a list, whose cache says clean).
+func specOwnErrNil(v Item) bool {
+	switch t := v.(type) {
+	case *IntItem:
+		return t != nil && t.itemErr == nil
+	case *UintItem:
+		return t != nil && t.itemErr == nil
+	case *FloatItem:
+		return t != nil && t.itemErr == nil
+	case *ASCIIItem:
+		return t != nil && t.itemErr == nil
+	case *JIS8Item:
+		return t != nil && t.itemErr == nil
+	case *BinaryItem:
+		return t != nil && t.itemErr == nil
+	case *BooleanItem:
+		return t != nil && t.itemErr == nil
+	case *LocalizedStrItem:
+		return t != nil && t.itemErr == nil
+	case *EmptyItem:
+		return t != nil && t.itemErr == nil
+	case *ListItem:
+		return t != nil && t.itemErr == nil && t.clean
+	}
+	return false
+}
+
+//@ func childClean
+//@ ensures [exact] result == specOwnErrNil(v)
+
+//@ func NewListItem
+//@ ensures [type]  result != nil && specIsListItem(result) && result.(*ListItem) != nil && fresh(result)
+//@ ensures [limit] len(values) > MaxByteSize ==> result.(*ListItem).itemErr != nil
+//@ ensures [clean] result.(*ListItem).clean ==> result.(*ListItem).itemErr == nil
+//@ ensures [count] result.(*ListItem).itemErr == nil ==> len(result.(*ListItem).values) <= MaxByteSize
+//@ loop 1 invariant [fresh] fresh(item.values) && len(item.values) <= zzIter() && item.itemErr == nil
+
+//@ func (*ListItem).Error
+//@ requires item != nil
+//@ ensures [clean] item.clean ==> result == nil
+//@ ensures [own]   !item.clean && item.itemErr != nil ==> result != nil
+//@ ensures [child] !item.clean ==> forall k :: 0 <= k && k < len(item.values) ==>
+//@                 (item.values[k] != nil && item.values[k].Error() != nil ==> result != nil)
+//@ loop 1 invariant [own]   item.itemErr != nil ==> errs != nil
+//@ loop 1 invariant [child] forall k :: 0 <= k && k < zzIter() ==> (item.values[k] != nil && item.values[k].Error() != nil ==> errs != nil)
+'''
+
+
 def section():
-    return HEAD + fast_path() + int_slow()
+    return HEAD + fast_path() + int_slow() + CTOR + uint_slow() + float_slow() + CTOR2 + LIST
